@@ -199,6 +199,9 @@ func runScenario(sc Scenario, dir string) ([]verif.Event, *RunResult) {
 	if sc.Mode == "contend" || sc.Mode == "core" {
 		r.clsHoldStep()
 	}
+	if sc.Mode == "bytes" || sc.Mode == "flow" {
+		r.bigFrameStep()
+	}
 	if sc.Vanish {
 		r.vanishStep()
 	}
@@ -1044,4 +1047,68 @@ func (r *Run) clsHoldStep() {
 		a.cmd("FIN", id, "")
 	}
 	a.barrier(10 * time.Second)
+}
+
+// bigFrameStep: one message that fills its consumer's RDY count, larger than the connection's output buffer and hard to
+// compress, on whatever the scenario negotiates (plain, TLS, snappy, deflate; output buffer sizes / timeouts): what nsqd
+// has written for a ready consumer reaches it within the output-buffer timeout -- here: within the lateness bound --,
+// not at the next heartbeat (C03: "... may still arrive (within the output-buffer timeout)").
+func (r *Run) bigFrameStep() {
+	t := r.sc.Topics[0]
+	r.httpAdmin("/topic/unpause?topic=" + t) // the phases before may have left it paused
+	r.httpAdmin("/channel/create?topic=" + t + "&channel=bigch")
+	c, err := r.newConsumer(t, "bigch", 0, 1)
+	if err != nil {
+		r.inconclusive("big frame consumer: %v", err)
+		return
+	}
+	if _, err := c.cn.barrier(20 * time.Second); err != nil {
+		r.inconclusive("big frame barrier: %v", err)
+		return
+	}
+	for i := 0; i < 3; i++ {
+		size := []int{40000, 70000, 33000}[i]
+		if size > r.maxMsgSize()-100 {
+			size = r.maxMsgSize() - 100
+		}
+		key := fmt.Sprintf("p95-%05d", i)
+		body := make([]byte, size)
+		r.rng.Read(body)
+		copy(body, []byte(key+"|"))
+		rec := r.record(key, t, body, 0, "HTTP")
+		hlib.Emit("HPub", "key", key, "via", "HTTP", "t", t, "defer", 0, "now", time.Now().UnixNano())
+		t0 := time.Now()
+		if st, _, err := r.nd.post("/pub?topic="+t, body); err != nil || st != 200 {
+			return
+		}
+		r.markAcked([]*pubRec{rec})
+		bound := time.Second
+		if l0 := time.Duration(25 * atomic.LoadInt64(&maxOversleep)); l0 > bound {
+			bound = l0
+		}
+		var got *Frame
+		deadline := time.Now().Add(bound + 5*time.Second)
+		for time.Now().Before(deadline) && got == nil {
+			f, ok := c.cn.next(50 * time.Millisecond)
+			if ok && f.Type == 2 && keyOf(f.Body) == key {
+				got = &f
+			}
+			if c.cn.isClosed() {
+				break
+			}
+		}
+		if got == nil {
+			r.failf("[C03] a %d-byte message published for an idle consumer with RDY 1 had not arrived %s later (its frame was written; the connection was not flushed)", size, bound+5*time.Second)
+			return
+		}
+		if late := time.Since(t0); late > bound {
+			r.failf("[C03] a %d-byte message published for an idle consumer with RDY 1 arrived %s after the publish was acknowledged (bound %s): its frame sat in the connection's output path well beyond the output-buffer timeout", size, late, bound)
+		}
+		c.held[got.ID] = time.Now()
+		c.cn.cmd("FIN", got.ID, "")
+		delete(c.held, got.ID)
+		if _, err := c.cn.barrier(20 * time.Second); err != nil {
+			return
+		}
+	}
 }
